@@ -213,8 +213,10 @@ int World::exec_array(const Op &op) {
         int variant = ((unsigned) a[2]) % 16;
         if (variant == 1) { ne.push_back(2); arg_class += ",rank-change"; }
         else for (auto &e : ne) { int k = r.range(0, 5); if (k == 0) e = e > 0 ? e - 1 : 0; else if (k == 1) e += 1; else if (k == 2) e = (uint64_t) r.range(0, plan.swarm.big ? 40 : 7); }
+        if (variant != 1) must_succeed = "C01.extent";
         try { x.dataExtent(to_nd(ne)); }
         catch (const std::exception &) { return 1; }
+        must_succeed.clear();
         if (variant == 1) { arr.erase(id); dims.erase(id); return 0; }   // outcome not predicted
         model_resize(m, ne);
         cnt.inc("array.resize");
@@ -247,6 +249,7 @@ int World::exec_array(const Op &op) {
         std::string dummy(16, '\0'); std::vector<std::string> sdummy(1);
         if (n == 0) buf = mt == DataType::String ? (const void *) sdummy.data() : (const void *) dummy.data();
         if (invalid == 5) buf = zeros.data();
+        if (!invalid) must_succeed = "C01.read-equals-model";
         if (op.kind == OP_arr_view && !invalid) {
             // write through a DataView whose window is [woff, woff+wcnt) and view-relative offset
             std::vector<uint64_t> woff(rank), wcnt(rank), rel(rank);
@@ -258,6 +261,7 @@ int World::exec_array(const Op &op) {
             try { x.setData(mt, buf, to_nd(cntv), to_nd(off)); }
             catch (const std::exception &) { return 1; }
         }
+        must_succeed.clear();
         if (invalid) { arr.erase(id); dims.erase(id); return 0; }           // accepted an out-of-contract write: state not predicted
         model_write(m, mt, off, cntv, w);
         cnt.inc("array.write"); if (mt != m.dtype) cnt.inc("array.write_converted");
@@ -278,6 +282,7 @@ int World::exec_array(const Op &op) {
             arr.erase(id); dims.erase(id);      // accepted: not predicted
             return 0;
         }
+        must_succeed = "C01.read-equals-model";
         try {
             // DataSet::setData(value) = resize to the value's shape, then write everything
             if (m.dtype == DataType::String) x.setData(w.strs);
@@ -292,6 +297,7 @@ int World::exec_array(const Op &op) {
                 }
             }
         } catch (const std::exception &) { return 1; }
+        must_succeed.clear();
         std::vector<uint64_t> ne(1, n), off(1, 0);
         model_resize(m, ne);
         model_write(m, m.dtype, off, ne, w);
@@ -320,8 +326,10 @@ int World::exec_array(const Op &op) {
         std::string dummy(16, '\0'); std::vector<std::string> sdummy(1);
         const void *buf = mt == DataType::String ? (const void *) (n ? w.strs.data() : sdummy.data()) : (const void *) (n ? w.raw.data() : dummy.data());
         if (invalid == 5) buf = zeros.data();
+        if (!invalid) must_succeed = "C01.read-equals-model";
         try { x.appendData(mt, buf, to_nd(cntv), ax); }
         catch (const std::exception &) { return 1; }
+        must_succeed.clear();
         if (invalid) { arr.erase(id); dims.erase(id); return 0; }
         std::vector<uint64_t> ne = m.extent;
         off[axis] = ne[axis]; ne[axis] += cntv[axis];
